@@ -176,22 +176,46 @@ def run_static(ffi, c):
 
 
 def main(payload):
+    """Sequences run in forked children, `chunk` cases per child (fork is the dominant cost on a loaded
+    machine).  A child that dies is re-run case by case, so a crash is attributed to one case; the harness
+    re-runs every case that shows a violation with chunk = 1 (fresh child each) before reporting it."""
     ffi = cffi.FFI()
     ffi.cdef(CDEF)
-    res = []
-    for c in payload["cases"]:
+    cases = payload["cases"]
+    chunk = max(1, int(payload.get("chunk", 1)))
+    res = [None] * len(cases)
+
+    def one(c):
         try:
-            if c["kind"] == "static":
-                res.append(run_static(ffi, c))
-            else:
-                # every sequence runs in its own forked child: memory corruption or a crash caused by
-                # one case cannot disturb the others and is attributed to that case
-                r = in_child(lambda: run_case(ffi, c))
-                if isinstance(r, list):
-                    r = dict(crash=r[1]) if r[0] == "crash" else dict(error="child raised %s" % r[1])
-                res.append(r)
+            return run_case(ffi, c)
         except Exception as e:
-            res.append(dict(error="%s: %s" % (type(e).__name__, e)))
+            return dict(error="%s: %s" % (type(e).__name__, e))
+
+    def single(i):
+        r = in_child(lambda: one(cases[i]))
+        if isinstance(r, list):
+            r = dict(crash=r[1]) if r[0] == "crash" else dict(error="child raised %s" % r[1])
+        res[i] = r
+
+    seq = [i for i, c in enumerate(cases) if c["kind"] != "static"]
+    for i, c in enumerate(cases):
+        if c["kind"] == "static":
+            try:
+                res[i] = run_static(ffi, c)
+            except Exception as e:
+                res[i] = dict(error="%s: %s" % (type(e).__name__, e))
+    for k in range(0, len(seq), chunk):
+        idx = seq[k:k + chunk]
+        if len(idx) == 1:
+            single(idx[0])
+            continue
+        r = in_child(lambda: [one(cases[i]) for i in idx])
+        if isinstance(r, list) and len(r) == len(idx) and all(isinstance(x, dict) for x in r):
+            for i, x in zip(idx, r):
+                res[i] = x
+        else:                     # the child died: isolate
+            for i in idx:
+                single(i)
     return dict(results=res, sizes={t: ffi.sizeof(t) for t in payload["types"]})
 
 
